@@ -52,7 +52,7 @@ def digest(s: str) -> str:
 def module_state():
     """Deep fingerprint of the module-level state of the transpiler / toolchain modules: every container (deep repr), every
     plain value (numbers, strings, tuples - a rebound counter), and every other object whose repr shows its state rather
-    than its address (itertools.count, functools caches via cache_info(), compiled patterns)."""
+    than its address (itertools.count, compiled patterns)."""
     import types
 
     import Reduino
@@ -71,13 +71,8 @@ def module_state():
             if name.startswith("__") or name.startswith("_VERIF"):
                 continue
             if isinstance(v, types.FunctionType) or callable(v):
-                info = getattr(v, "cache_info", None)   # functools.lru_cache / cache wrappers carry state between calls
-                if info is not None:
-                    try:
-                        n += 1
-                        h.update(f"{name}:cache:{info().currsize}".encode())
-                    except Exception:  # noqa: BLE001
-                        pass
+                # (functions - also memoised ones: a cache of a pure helper changes no output and is not judged here; a cache
+                # that does change an output is caught by the digest comparisons)
                 if not isinstance(v, (dict, list, set)):
                     continue
             if isinstance(v, skip_types):
